@@ -26,6 +26,10 @@ Definition np_eye : mat := fun i j => if Nat.eqb i j then 1 else 0.
 Definition np_hstack (w : nat) (blocks : list mat) : mat :=
   fun i j => nth (j / w) blocks np_zeros i (j mod w).
 
+(* np.std(l, ddof=k) ** 2 *)
+Definition var_ddof (k : nat) (l : list F) : F :=
+  let mu := mean F l in lsumF F (map (fun x => (x - mu) * (x - mu)) l) / of_nat F (length l - k).
+
 (* ---- specifications ---- *)
 (* calc_direct_sum: ValueError (1) at the first entry that is not 2-dimensional, ValueError (2) at the first non-square entry
    (checked per entry in this order), otherwise the direct sum *)
